@@ -46,6 +46,7 @@ func c05(c *core.Ctx) string {
 	c05NoDispatch(c)
 	c05New(c)
 	c05EveryEntryInserted(c)
+	c05NewIPFilter(c)
 	// a cached route must not let a denied client through: the cache rules of C12 that concern IP filters
 	if s := analyzeSearch(c, "R-C05-6"); s != nil {
 		c.Rule("R-C05-6", "the route cache does not bypass IP filters: every IP test passed on the way to a cache put is re-validated on a hit (shared with R-C12-2)")
